@@ -171,8 +171,11 @@ class SelfAdjointOperator(Operator):
                               self.data)).all()
         
     def diagonalize(self):
-        # first use is of "data", the rest of "_data"
-        dd,SS = numpy.linalg.eigh(self.data)
+        # first use is of "data" (it brings the operator to the current basis),
+        # the rest of "_data": the stored values are diagonalized, "data" may
+        # be expressed in other than internal units
+        self.data
+        dd,SS = numpy.linalg.eigh(self._data)
         self._data = numpy.zeros(self._data.shape)
         for ii in range(self._data.shape[0]):
             self._data[ii,ii] = dd[ii]
